@@ -48,43 +48,64 @@ def body(run):
         r = run.parallel(*jobs)
         return r[0].rows + (r[2].rows if not q else [])
 
+    def dyn_chain():
+        # the address space changes between browses (AddSubtype / AddRef through the server API):
+        # TLC checks the contract on the space of every phase and emits the same queries per phase
+        rows = []
+        gens = run.parallel(*[
+            (lambda p=p: run.tlc("Browse", "BrowseSyn", "BrowseSyn_dyn_p%d.cfg" % p, mode="gen", timeout=1500,
+                                 label="rows + contract on the space after %d group(s) of additions" % p))
+            for p in (0, 1, 2)])
+        for p, g in enumerate(gens):
+            for r in g.rows:
+                r["phase"] = p
+                rows.append(r)
+        return rows
+
     res = run.parallel(
-        lambda: run.tlc("Browse", "BrowseSyn", "BrowseSyn_mc.cfg", timeout=1500,
+        lambda: run.tlc("Browse", "BrowseSyn", run.pick("BrowseSyn_mc_q.cfg", "BrowseSyn_mc.cfg"), timeout=1500,
                         label="contract: filter loop = Expected for every query on the synthetic space"),
         lambda: run.tlc("Browse", "BrowseSyn", "BrowseSyn_dev_ignore.cfg", expect="violation", count=False, timeout=1500,
                         label="deviation demo: subtype list consulted with IncludeSubtypes=FALSE"),
         lambda: run.tlc("Browse", "BrowseSyn", "BrowseSyn_dev_loop.cfg", expect="violation", count=False, timeout=1500,
                         label="deviation demo: deletion loop panics"),
-        lambda: run.tlc("Browse", "BrowseSyn", "BrowseSyn_gen.cfg", mode="gen", count=False, timeout=1500,
-                        label="rows: every query on the synthetic space"),
+        lambda: run.tlc("Browse", "BrowseSyn", run.pick("BrowseSyn_gen_q.cfg", "BrowseSyn_gen.cfg"), mode="gen",
+                        count=False, timeout=1500, label="rows: every query on the synthetic space"),
         std_chain,
+        dyn_chain,
     )
     syn_rows = res[3].rows
     if not [r for r in syn_rows if r.get("kind") == "space"]:
         raise vf.Inconclusive("no space row from BrowseSyn_gen")
     nq = len([r for r in syn_rows if r.get("kind") != "space"])
     std_rows = res[4]
+    dyn_rows = res[5]
+    ndyn = len([r for r in dyn_rows if r.get("kind") != "space"])
     sp = box["sp"]
-    run.log("synthetic: %d query rows; standard space: %d query rows" % (nq, len(std_rows)))
+    run.log("synthetic: %d query rows; standard space: %d query rows; changing space: %d query rows in 3 phases"
+            % (nq, len(std_rows), ndyn))
     deaths = run.pick(3, 10)
     r2 = run.parallel(
         lambda: run.go_run(exe[0], ["-mode", "syn", "-max-deaths", str(deaths)], cases=syn_rows, timeout=3000),
         lambda: run.go_run(exe[0], ["-mode", "std", "-space", box["path"], "-max-deaths", str(deaths)],
                            cases=std_rows, timeout=3000),
+        lambda: run.go_run(exe[0], ["-mode", "dyn", "-max-deaths", str(deaths)], cases=dyn_rows, timeout=3000),
     )
-    syn_res, std_res = r2
-    allres = syn_res + std_res
-    if len(allres) != nq + len(std_rows):
+    syn_res, std_res, dyn_res = r2
+    allres = syn_res + std_res + dyn_res
+    if len(allres) != nq + len(std_rows) + ndyn:
         raise vf.Inconclusive("harness returned %d results for %d rows" % (len(allres), nq + len(std_rows)))
     skipped = [r for r in allres if r.get("status") == "skipped"]
     run.absorb([r for r in allres if r.get("status") != "skipped"])
     run.cov["rows_synthetic"] = nq
     run.cov["rows_standard"] = len(std_rows)
+    run.cov["rows_changing_space"] = ndyn
     run.cov["skipped_after_crash_budget"] = len(skipped)
     run.cov["exported_nodes"] = len(sp["nodes"])
     run.cov["rule"] = ("one case per TLC initial state (node, direction, reference type, IncludeSubtypes, class mask); "
                        "class = direction x null/typed x subtypes flag x mask/no mask x empty/non-empty answer x "
-                       "relation to the as-is prediction; synthetic space exhaustively, standard nodes by seeded draws")
+                       "relation to the pre-repair prediction x phase; synthetic space exhaustively, standard nodes by seeded draws, "
+                       "the same 270 queries before and after each of two groups of AddSubtype/AddRef additions")
     run.assumptions += [
         "the oracle is relative to the node's own reference list and the HasSubtype references read in-process "
         "(server.VerifNodeRefs); the NodeSet import itself is not checked",
